@@ -1054,7 +1054,7 @@ def execute(check, case, workdir):
                     res.log.append('%d save_load(%s) m%d save raised %s' % (stepno, fmt, m.id, type(e).__name__))
                     res.probe('save_refused:' + flags)
                 if ok:
-                    if op.get('dialect') and fmt in ('dcd', 'trr', 'gro'):
+                    if op.get('dialect') and fmt in ('dcd', 'trr', 'gro', 'nc'):
                         # the same values as another program stores them (simlib/foreign.py): opposite byte order, double precision
                         # with velocities and forces, velocity columns
                         from .. import foreign
@@ -1062,6 +1062,12 @@ def execute(check, case, workdir):
                             foreign.dcd_swap_endianness(p)
                         elif fmt == 'trr':
                             foreign.trr_rewrite(p, True, stepno % 2 == 0, stepno % 3 == 0, stepno)
+                        elif fmt == 'nc':
+                            # AMBER's own layout, or coordinates and cell lengths stored packed (CF scale_factor)
+                            if stepno % 2:
+                                foreign.nc_pack_variables(p, [10.0, 8.0, 0.5][stepno % 3])
+                            else:
+                                foreign.nc_as_amber_writes(p, ['NETCDF3_64BIT_OFFSET', 'NETCDF4', 'NETCDF3_CLASSIC'][stepno % 3], True, stepno % 4 == 0, stepno)
                         else:
                             foreign.gro_add_velocities(p, stepno)
                         res.probe('save_load_through_foreign_dialect:' + fmt)
